@@ -31,7 +31,7 @@ def nonZeroParent (s : Rebuild w) (ps : List (Rebuild w)) (var : Int) : Bool :=
 structure PK (s : Rebuild w) (ps : List (Rebuild w)) (M0 : Mem w) : Prop where
   const : ∀ v c, getParentConstant s ps v = some c → M0 v = c
   nz : ∀ v, nonZeroParent s ps v = true → M0 v ≠ 0#w
-  cmp : ∀ a b, Expr.WeakCanon a → Expr.WeakCanon b → compareParent s ps a b = .ok true →
+  cmp : ∀ a b, Expr.Canon a → Expr.Canon b → compareParent s ps a b = .ok true →
     ev a M0 = ev b M0
 
 /-- The fields the parent interface depends on. -/
